@@ -190,6 +190,10 @@ def hand_cases(tier, seed):
                                     if variant == 0 and ft == "plain" and nm == kind:
                                         cases.append(dict(src="hand", kind=kind, dim=dim, ns=ns, noise=noise, variant=4,
                                                           name=nm, feat=ft, via=via))
+                                    if variant == 0 and ft == "plain" and nm == kind and ns:
+                                        # a file edited by hand: its (informative) mixing_matrix entry belongs to other values
+                                        cases.append(dict(src="hand", kind=kind, dim=dim, ns=ns, noise=noise, variant=5,
+                                                          name=nm, feat=ft, via=via))
                                     if kind == "joint" and variant == 0 and ft == "plain" and nm in (kind, "my-model"):
                                         cases.append(dict(src="hand", kind=kind, dim=dim, ns=ns, noise=noise, variant=variant,
                                                           name=nm, feat=ft, via=via, ne=2))
@@ -339,6 +343,8 @@ def hand_parameters(case):
     spec = dict(kind=case["kind"], dim=case["dim"], ns=case["ns"], noise=case["noise"], variant=case["variant"] % 3)
     if case["variant"] in (3, 4):
         spec["variant"] = 1
+    if case["variant"] == 5:
+        spec["variant"] = 2
     d = copy.deepcopy(model_dict(spec))
     if case["variant"] == 3:
         def scale(x):
@@ -352,6 +358,9 @@ def hand_parameters(case):
             if k.endswith("_std"):
                 v0 = d["parameters"][k]
                 d["parameters"][k] = [0.001 * (1 + 0.5 * i) for i in range(len(v0))] if isinstance(v0, list) else 0.001
+    if case["variant"] == 5:
+        # the stored mixing matrix is documented as informative only (recomputed from betas at load): a stale one must not matter
+        d["parameters"]["mixing_matrix"] = [[round(0.3 + 0.1 * j - 0.2 * k, 3) for k in range(case["dim"])] for j in range(case["ns"])]
     d["features"] = features_of(case)
     ne = int(case.get("ne", 1))
     if case["kind"] == "joint" and ne != 1:
@@ -873,6 +882,28 @@ def run_case(case, tmpdir):
             trajs2 = compare_models(model, m2, case, judge, "BaseModel.load", ips, ages, trajs1 if opt == "default" else None)
             if opt == "default" and trajs2 is not None:
                 check_against_file(m2, doc1, case, judge, "reloaded model", ips, ages, trajs2)
+            if opt == "default":
+                # ---- the same content given as a dictionary (documented input of BaseModel.load), the SAME dictionary object read
+                # twice: both readings give the model the file gives
+                d = copy.deepcopy(doc1)
+                which = "first"
+                try:
+                    with quiet():
+                        md1 = BaseModel.load(d)
+                        which = "second"
+                        md2 = BaseModel.load(d)
+                    t_file, t1, t2 = (json.dumps(m.to_dict(), sort_keys=True, default=str) for m in (m2, md1, md2))
+                    if t1 != t_file:
+                        judge.add("BaseModel.load(dict)", "model differs from the model read from the file with the same content", feat,
+                                  str(doc_diff(json.loads(t_file), json.loads(t1)))[:300])
+                    elif t2 != t1:
+                        judge.add("BaseModel.load(dict)", "second reading of the same dictionary gives another model", feat,
+                                  str(doc_diff(json.loads(t1), json.loads(t2)))[:300])
+                    counts["dict_reloads"] = counts.get("dict_reloads", 0) + 2
+                except CaseTimeout:
+                    raise
+                except Exception as e:
+                    judge.add("BaseModel.load(dict)", f"{type(e).__name__} at the {which} reading of a dictionary holding the content of the file", feat, exc_text(e))
             # ---- save again, and once more
             p2 = os.path.join(tmpdir, f"m2_{opt}.json")
             try:
